@@ -141,9 +141,54 @@ def dir_stream(ctx, n):
         ctx.traces_validated += 1
 
 
+def empty_table_stream(ctx, n):
+    """tables without rows (header line only) and with zero-sized columns, in file and directory mode: the report must still be
+    well-formed XML whose counts match (messages about empty arrays are part of the test cases' output)"""
+    rng = ctx.rng
+    for i in range(n):
+        k = rng.randint(2, 4)
+        names = rng.sample(["x", "y", "p", "t", "vel", "rho"], k)
+        rows_res = rng.choice([0, 0, 0, 2])
+        rows_ref = rng.choice([0, 0, 2]) if rows_res == 0 else 0
+        d = os.path.join(str(ctx.workdir), f"empty{i}")
+        for side, nrows in (("res", rows_res), ("ref", rows_ref)):
+            os.makedirs(os.path.join(d, side))
+            with open(os.path.join(d, side, "t.csv"), "w") as f:
+                f.write(",".join(names) + "\n")
+                for r in range(nrows):
+                    f.write(",".join(str(r + 0.5 + j) for j in range(k)) + "\n")
+        for mode in ("file", "dir"):
+            jp = os.path.join(d, f"report_{mode}.xml")
+            args = ([mode, os.path.join(d, "res", "t.csv"), os.path.join(d, "ref", "t.csv")] if mode == "file"
+                    else [mode, os.path.join(d, "res"), os.path.join(d, "ref")])
+            args += ["--read-as", c04.DSV_OPT if mode == "file" else c12.READ_AS_CSV, "--verbosity", "0", "--junit-xml", jp]
+            with warnings.catch_warnings():
+                warnings.simplefilter("ignore")
+                rc, log, exc = run_cli(args)
+            sc = {"empty_tables": {"mode": mode, "names": names, "rows": [rows_res, rows_ref]}}
+            ctx.case(sc, True, sample={"scenario": sc, "exit": rc, "escaped": exc})
+            ctx.count(f"stream:empty tables:{mode}")
+            if exc is None and os.path.exists(jp):
+                try:
+                    suites = parse_junit(jp)
+                except Exception as e:  # noqa: BLE001
+                    raw = open(jp, "rb").read()
+                    ctl = sorted({b for b in raw if b < 32 and b not in (9, 10, 13)})
+                    ctx.violation("E4", f"{mode} mode: report is not well-formed XML: {e} (control characters {ctl})", sc)
+                    continue
+                check_wellformed(ctx, f"{mode} mode (empty tables)", sc, suites, rc)
+                if rows_res == rows_ref and rc != 0:
+                    ctx.violation("E4", f"{mode} mode: identical header-only tables do not compare as passed (exit {rc})", sc)
+            elif exc is None:
+                ctx.count("empty:no-report-written")
+            ctx.traces_validated += 1
+        shutil.rmtree(d, ignore_errors=True)
+
+
 def run(ctx):
     ctx.prove()
     q = ctx.tier == "quick"
+    empty_table_stream(ctx, 12 if q else 300)
     file_stream(ctx, 900 if q else 25000)
     seq_stream(ctx, 150 if q else 4000)
     dir_stream(ctx, 150 if q else 4000)
